@@ -251,7 +251,10 @@ impl UMsg {
             "lifecycle": self.lc, "text": self.text, "real_verbose_payload": self.real_payload})
     }
     pub fn to_dlt(&self, index: u32) -> DltMessage {
-        let payload = if self.real_payload {
+        let payload = if self.real_payload && self.text.is_empty() {
+            // a verbose message without arguments: no payload bytes, no decoded text attached; its text is the empty string
+            vec![]
+        } else if self.real_payload {
             // one verbose UTF-8 string argument, little endian: type info, 16 bit length incl. terminator, bytes, NUL
             let mut p = vec![0x00, 0x82, 0x00, 0x00];
             p.extend_from_slice(&((self.text.len() + 1) as u16).to_le_bytes());
@@ -261,7 +264,7 @@ impl UMsg {
         } else {
             vec![index as u8, (index >> 8) as u8]
         };
-        let noar = if self.real_payload { 1 } else { 0 };
+        let noar = if self.real_payload && !self.text.is_empty() { 1 } else { 0 };
         let mut m = mk_msg(
             index,
             &self.ecu,
@@ -339,6 +342,8 @@ impl Universe {
         um.push(d("E.U1", true, "foo", false));
         um.push(d("E(U1", true, "foo", false));
         um.push(d("ECU1", true, "foo", true));
+        // verbose message without arguments (empty payload, empty text)
+        um.push(d("ECU1", true, "", true));
         um.push(d("ECU2", true, "FOO bar baz", true));
         let dm = um.iter().enumerate().map(|(i, m)| m.to_dlt(i as u32)).collect();
         Universe { um, dm, probe_memo: Default::default() }
@@ -1430,6 +1435,9 @@ pub fn variants(level: u8) -> Vec<Vec<Crit>> {
             pre("^(?:FOO|bar).*$", false),
             pre("<B&C$", true),
             // regular expressions that carry their own inline flag (case-insensitivity not requested from outside)
+            // expressions that hold on the empty text
+            pre("^$", false),
+            pre("^(?:fo+)?$", false),
             pre("(?i)^fo+$", false),
             pre("^bar|(?i)foo", false),
         ]);
